@@ -99,7 +99,7 @@ pub fn run(tr: &mut Tr, seed: u64, histories: usize, len: usize) -> (u64, u64) {
             tr.reset();
             let short: Vec<u8> = img.iter().cloned().chain(std::iter::repeat(0xA5)).take(8 * rng.random_range(1..=4usize)).collect();
             let rw = READER_WORDS[rng.random_range(0..4)];
-            let rcfg = RCfg { le, w: rw, kind: "buf", backend: "strict", wrap: ["count", "none"][rng.random_range(0..2)] };
+            let rcfg = RCfg { le, w: rw, kind: "buf", backend: "strict", wrap: "none" };
             let mut rd = TRd::new(tr, &rcfg, &short);
             let mut tw2 = TW::new(tr, &WCfg { le, w: ww, backend: "vec", wrap: "count" }, 0);
             tw2.write_bits(tr, 5, rng.random_range(3..9));
